@@ -13,6 +13,19 @@ PROOF_NOTE = ("Trusted: Lean 4.33 kernel + axioms propext/Classical.choice/Quot.
               "tables/constants (Strophe/Gen). ")
 
 CLAIMED = {
+    "C12": dict(
+        engine="own", design="5.12",
+        technique="Lean 4 theorems over a pointer-level heap model of stanza.c + hash.c ownership (every field access checked against freed nodes, the allocator's books carried along) for all API programs respecting the documented ownership rules; differential execution with EXACT live-block prediction after every call under an instrumented allocator + ASan; allocator-bypass and whole-connection balance as oracles (companion pass on engine conn)",
+        text=("For every program satisfying WellOwned (the documented rules R1-R4, stated as a decidable predicate): "
+              "no_use_after_free (no access to a freed node, at the end and at every prefix), freed_at_most_once / "
+              "freed_exactly_once (the free log has no duplicates; with no references left every block is returned: blocks = 0), "
+              "alive_while_referenced (everything reachable from a held reference is live, including a child whose parent was "
+              "released), refcount_exact, parent_never_dangles, blocks_predicted (the live-block count equals the structural "
+              "count 1 per node + 1 per string + 2+3n per attribute table: what the harness compares after every call), "
+              "end_releases_everything; d6_old_code_uaf / d6_repaired (machine-checked witnesses of the repaired defect). "
+              "Necessity of each rule is shown by decided examples. Five defects found and repaired (D6 use-after-free, three "
+              "leaks), one known finding (D28 second context bypasses the allocator for expat)."),
+        note=PROOF_NOTE + "PARTIAL: the theorems cover the stanza/attribute-table ownership core; connection-level balance (connect/negotiate/fail/disconnect/reconnect/release, SM hand-over, global timed handlers) and 'nothing bypasses the allocator' are ORACLES on the real code (zero live blocks at the end of every generated history, link-wrapped malloc family), not theorems; allocation-failure paths are not modelled."),
     "C04": dict(
         engine="conn", design="5.4",
         technique="Lean 4: invariants over every operation history of the connection-machine model (numbering, contiguity, retained = written) and step theorems for <a/>, <resumed/>, <failed/>, <enabled/> with the ghost number of every written element; tied to event.c/conn.c/auth.c by differential execution + model-free SM monitor",
